@@ -64,15 +64,23 @@ def acodecOfCli (s : String) : Option ACodec :=
   | "aac-ltp" => some (.aac .ltp) | "aac-he" => some (.aac .he) | "aac-hev2" => some (.aac .hev2)
   | "opus" => some .opus | "none" => some .none | _ => none
 
-/-- input file → frame bytes: exists, UTF-8, hex text, non-empty -/
+/-- the property's reading of "valid hexadecimal text" (independent of the tool's decoder): UTF-8
+    text whose non-whitespace characters are hex digits, an even, non-zero number of them -/
+def isHexDigitChar (c : Nat) : Bool := (48 ≤ c && c ≤ 57) || (65 ≤ c && c ≤ 70) || (97 ≤ c && c ≤ 102)
+def hexDigitValue (c : Nat) : Nat := if c ≤ 57 then c - 48 else if c ≤ 70 then c - 55 else c - 87
+def hexTextBytes : List Nat → Bytes
+  | a :: b :: r => u8 (hexDigitValue a * 16 + hexDigitValue b) :: hexTextBytes r
+  | _ => []
+
+/-- input file → frame bytes: exists, UTF-8, non-empty even-length hex text -/
 def inputFrame (content : Option Bytes) : Option Bytes :=
   match content with
   | none => none
   | some b => match utf8Strict b with
     | none => none
-    | some chars => match readHexBytes chars with
-      | some d => if d.isEmpty then none else some d
-      | none => none
+    | some chars =>
+      let hexs := chars.filter (fun c => !isRustWhitespace c)
+      if !hexs.isEmpty && hexs.length % 2 == 0 && hexs.all isHexDigitChar then some (hexTextBytes hexs) else none
 
 structure MuxExpect where
   valid : Bool
